@@ -412,7 +412,7 @@ def run(rep, tier, only=None):
                     if pos == "self_generic" and bk != "generic_struct":
                         continue
                     for prefix in ((False, True) if lang in ("swift", "kotlin", "go") else (False,)):
-                        if tier == "quick" and prefix and (pi + sd) % 3 != 0 and not (lang == "go" and ren and pos in ("map_both", "generic_arg", "generic_two")):
+                        if tier == "quick" and prefix and (pi + sd) % 3 != 0 and not (lang == "go" and ren):
                             continue
                         if lang == "go" and prefix and not ren:
                             continue
